@@ -546,53 +546,63 @@ def position_direct_conformance(rep, w, t, sd):
         return
     nb = ns = 0
     t0 = 18264 * 1440 + 900
-    for f in sorted(glob.glob(simdir + "/tr_*")):
+    scaled = 0
+    for fi, f in enumerate(sorted(glob.glob(simdir + "/tr_*"))):
         states = [st for _n, _a, st in tlc.parse_sim_file(f)]
-        pos = None
         nb += 1
-        for k, S in enumerate(states[1:], 1):
-            P0, P1 = states[k - 1]["P"], S["P"]
-            when = ts(t0 + k)
-            try:
-                if S["last"] == "fill":
-                    if "none" in P0:
-                        q = P1["bq"] - P1["sq"]
-                        px = P1["px"]
-                        comm = P1["bc"] + P1["sc"]
-                        pos = Position.open_from_transaction(Transaction("EQ:X", q, when, px / 1000.0, "o%d" % k, commission=comm / 1000.0))
+        # The accounting is homogeneous: quantities x s and prices / s leave every money figure unchanged, scale the net
+        # quantity by s and the average price by 1 / s.  Replaying each behaviour a second time with s = 1/2 or 1/4 makes
+        # the model (whole units) the oracle for fractional quantities as well ("all real-valued ... quantities").
+        for sc in (Fraction(1), Fraction(1, 2) if fi % 2 else Fraction(1, 4)):
+            pos = None
+            fs = float(sc)
+            if sc != 1:
+                scaled += 1
+            for k, S in enumerate(states[1:], 1):
+                P0, P1 = states[k - 1]["P"], S["P"]
+                when = ts(t0 + k)
+                try:
+                    if S["last"] == "fill":
+                        if "none" in P0:
+                            q = P1["bq"] - P1["sq"]
+                            px = P1["px"]
+                            comm = P1["bc"] + P1["sc"]
+                            pos = Position.open_from_transaction(Transaction("EQ:X", (q if sc == 1 else q * fs), when, px / 1000.0 / fs, "o%d" % k, commission=comm / 1000.0))
+                        else:
+                            q = (P1["bq"] - P0["bq"]) - (P1["sq"] - P0["sq"])
+                            px = P1["px"]
+                            comm = (P1["bc"] - P0["bc"]) + (P1["sc"] - P0["sc"])
+                            pos.transact(Transaction("EQ:X", (q if sc == 1 else q * fs), when, px / 1000.0 / fs, "o%d" % k, commission=comm / 1000.0))
                     else:
-                        q = (P1["bq"] - P0["bq"]) - (P1["sq"] - P0["sq"])
-                        px = P1["px"]
-                        comm = (P1["bc"] - P0["bc"]) + (P1["sc"] - P0["sc"])
-                        pos.transact(Transaction("EQ:X", q, when, px / 1000.0, "o%d" % k, commission=comm / 1000.0))
+                        pos.update_current_price(P1["px"] / 1000.0 / fs, when)
+                except Exception as e:
+                    rep.violation("position-direct|raised", "Position raised %s: %s at step %d" % (type(e).__name__, e, k),
+                                  dict(kind="position-direct", file=os.path.basename(f), step=k))
+                    break
+                ns += 1
+                v = S["view"]
+                got = dict(net=pos.net_quantity, mv=pos.market_value, avg=pos.avg_price * fs, rpnl=pos.realised_pnl, upnl=pos.unrealised_pnl,
+                           tpnl=pos.total_pnl)
+                bad = None
+                if got["net"] != v["net"] * fs:
+                    bad = "net quantity %s, expected %s" % (got["net"], v["net"] * fs)
+                elif abs(got["mv"] * 1000 - v["mv"]) > 1e-6:
+                    bad = "market value %r, expected %s mil" % (got["mv"], v["mv"])
                 else:
-                    pos.update_current_price(P1["px"] / 1000.0, when)
-            except Exception as e:
-                rep.violation("position-direct|raised", "Position raised %s: %s at step %d" % (type(e).__name__, e, k),
-                              dict(kind="position-direct", file=os.path.basename(f), step=k))
-                break
-            ns += 1
-            v = S["view"]
-            got = dict(net=pos.net_quantity, mv=pos.market_value, avg=pos.avg_price, rpnl=pos.realised_pnl, upnl=pos.unrealised_pnl,
-                       tpnl=pos.total_pnl)
-            bad = None
-            if got["net"] != v["net"]:
-                bad = "net quantity %s, expected %s" % (got["net"], v["net"])
-            elif abs(got["mv"] * 1000 - v["mv"]) > 1e-6:
-                bad = "market value %r, expected %s mil" % (got["mv"], v["mv"])
-            else:
-                for key in ("avg", "rpnl", "upnl", "tpnl"):
-                    if not broker_conf.rat_close(float(got[key]), v[key]):
-                        bad = "%s %r, expected %s/%s mil (position: bought %s sold %s)" % (key, got[key], v[key][0], v[key][1], P1["bq"], P1["sq"])
-                        break
-            if bad:
-                flat_before = "none" not in P0 and P0["bq"] == P0["sq"]
-                rep.violation("position-direct|%s" % ("after-flat" if flat_before else "general"),
-                              "C03 (Position used directly): %s at step %d of %s" % (bad, k, [(x["last"], x["P"].get("bq"), x["P"].get("sq"), x["P"].get("px")) for x in states[1:k + 1]]),
-                              dict(kind="position-direct", steps=[(x["last"], x["P"]) for x in states[1:k + 1]]))
-                break
+                    for key in ("avg", "rpnl", "upnl", "tpnl"):
+                        if not broker_conf.rat_close(float(got[key]), v[key]):
+                            bad = "%s %r, expected %s/%s mil (position: bought %s sold %s)" % (key, got[key], v[key][0], v[key][1], P1["bq"], P1["sq"])
+                            break
+                if bad:
+                    flat_before = "none" not in P0 and P0["bq"] == P0["sq"]
+                    hist = [(x["last"], x["P"].get("bq"), x["P"].get("sq"), x["P"].get("px")) for x in states[1:k + 1]]
+                    rep.violation("position-direct|%s" % ("fractional-quantity" if sc != 1 else ("after-flat" if flat_before else "general")),
+                                  "C03 (Position used directly%s): %s at step %d of %s" % (
+                                      "" if sc == 1 else ", quantities x %s and prices / %s" % (sc, sc), bad, k, hist),
+                                  dict(kind="position-direct", scale=str(sc), steps=[(x["last"], x["P"]) for x in states[1:k + 1]]))
+                    break
     shutil.rmtree(simdir, ignore_errors=True)
-    rep.cov["position_direct"] = dict(behaviours=nb, steps=ns)
+    rep.cov["position_direct"] = dict(behaviours=nb, steps=ns, replays_with_fractional_quantities=scaled)
 
 
 def validate_repo_e2e(rep, prop, w):
